@@ -223,7 +223,7 @@ def worker(ctx):
         run_unit(ctx, unit)
         st.count("random_units")
         if i < 1 and ctx.idx == 0:
-            st.sample({"args": unit["args"], "input": unit["input"][:200].decode(), "combos": unit["combos"][:3]})
+            st.sample({"args": unit["args"], "input": unit["input"][:200].decode("utf-8", "replace"), "combos": unit["combos"][:3]})
 
 
 def run(env):
